@@ -3,6 +3,9 @@
 package validator
 
 import (
+	"fmt"
+	"strings"
+
 	v "github.com/aml-org/amf-custom-validator/internal/zzverif"
 	c "github.com/aml-org/amf-custom-validator/pkg/config"
 	"github.com/open-policy-agent/opa/rego"
@@ -164,4 +167,43 @@ func verifStripDigits(s string) string {
 		}
 	}
 	return string(b)
+}
+
+func verifDocFor(scope string, good string) (string, bool) {
+	switch {
+	case v.ReplayBool("flag:" + scope + ".eval.err"), v.ReplayBool("flag:" + scope + ".eval.empty"):
+		return "", false
+	case v.ReplayBool("flag:" + scope + ".decode.err"):
+		// not JSON, and long enough for the decoder to stop before having read all of it
+		return "<html><body>" + strings.Repeat("502 Bad Gateway ", 200) + "</body></html>", true
+	case v.ReplayBool("flag:" + scope + ".flatten.err"):
+		return `{"@context": 42, "@id": "x"}`, true
+	}
+	return good, true
+}
+
+// VerifC09HistoryNative replays a three-call history through one compiled profile with real
+// documents that provoke the recorded per-call outcomes.
+func VerifC09HistoryNative() {
+	good1 := `{"@id": "http://x/a", "@type": "http://a.ml/vocabularies/apiContract#EndPoint"}`
+	good2 := `{"@id": "http://x/b", "@type": "http://a.ml/vocabularies/apiContract#EndPoint", "http://a.ml/vocabularies/apiContract#path": "/p"}`
+	d1, ok1 := verifDocFor("c1", good1)
+	d2, ok2 := verifDocFor("c2", good2)
+	d3, ok3 := verifDocFor("c3", good1)
+	if !(ok1 && ok2 && ok3) {
+		fmt.Println("VERIF_NOT_REPRODUCIBLE evaluation faults cannot be provoked from outside")
+		return
+	}
+	compiled, cerr := ProcessProfile(verifProfile, false, nil)
+	if cerr != nil {
+		panic(cerr)
+	}
+	for attempt := 0; attempt < 10; attempt++ {
+		r1, e1, p1 := verifCall(3, compiled, d1)
+		_, _, _ = verifCall(3, compiled, d2)
+		r3, e3, p3 := verifCall(3, compiled, d3)
+		v.Assert("C09.step-independent.report", r1 == r3)
+		v.Assert("C09.step-independent.error", (e1 == nil) == (e3 == nil))
+		v.Assert("C09.step-independent.panic", p1 == p3)
+	}
 }
